@@ -47,6 +47,11 @@ pub struct FrameObs {
 
 /// All checks on one emitted frame. `events` are the encoder events recorded while it was produced.
 pub fn check_frame(input: &[u8], frame: &[u8], level_fastest: bool, window: u64, enc_events: &[verif::Event]) -> FrameObs {
+    check_frame_geom(input, frame, level_fastest, window, enc_events, BLOCK)
+}
+
+/// `blk`: the length of the blocks the compressor cuts its input into (128 KiB for the built-in geometry)
+pub fn check_frame_geom(input: &[u8], frame: &[u8], level_fastest: bool, window: u64, enc_events: &[verif::Event], blk: usize) -> FrameObs {
     let mut v: Vec<String> = vec![];
     let mut dr: Vec<String> = vec![];
     let n = input.len();
@@ -83,7 +88,7 @@ pub fn check_frame(input: &[u8], frame: &[u8], level_fastest: bool, window: u64,
     if declared_win < window {
         dr.push(format!("declared window {declared_win} is smaller than the matcher's window {window}"));
     }
-    let expect_blocks = if n == 0 { 1 } else { n / BLOCK + 1 };
+    let expect_blocks = if n == 0 { 1 } else { n / blk + 1 };
     if blocks.len() != expect_blocks {
         dr.push(format!("{} blocks for {} input bytes, the as-built split has {}", blocks.len(), n, expect_blocks));
     }
@@ -101,7 +106,7 @@ pub fn check_frame(input: &[u8], frame: &[u8], level_fastest: bool, window: u64,
         }
     }
     // the stated bound: frame header, three bytes per 128 KiB block, an optional empty final block, the checksum
-    let bound = n + hdr + 3 * ((n + BLOCK - 1) / BLOCK + 1) + 4;
+    let bound = n + hdr + 3 * ((n + blk - 1) / blk + 1) + 4;
     if frame.len() > bound {
         v.push(format!("[bound] frame has {} bytes, more than input + framing overhead = {bound}", frame.len()));
     }
@@ -149,7 +154,7 @@ pub fn check_frame(input: &[u8], frame: &[u8], level_fastest: bool, window: u64,
                 if d > BLOCK as u64 {
                     v.push(format!("[wf] block {bi} regenerates {d} bytes"));
                 }
-                let want = if (bi + 1) * BLOCK <= n { BLOCK } else { n.saturating_sub(bi * BLOCK) } as u64;
+                let want = if (bi + 1) * blk <= n { blk } else { n.saturating_sub(bi * blk) } as u64;
                 if d != want {
                     dr.push(format!("block {bi} regenerates {d} bytes, the as-built split has {want}"));
                 }
@@ -269,6 +274,82 @@ pub fn encexec(args: &[String]) {
     }
     write_json(&args[1], &json!({"programs": nprog, "frames": nframes, "mismatches": bad, "first": mism, "samples": samples, "block_kinds": decisions,
         "drifted_frames": drifted, "drift_examples": drift_ex}));
+}
+
+/// encgeom <seed> <quick|thorough> <report.json>
+/// The built-in match finder at other geometries (slice size x slices per window, hook H6) behind the public
+/// FrameCompressor::new_with_matcher: the window the frame header declares must cover every offset the matcher uses
+/// (windows that are not powers of two, matches at distances just below the window), plus all the other frame checks.
+pub fn encgeom(args: &[String]) {
+    use rand::Rng;
+    quiet_panics();
+    let seed: u64 = args[0].parse().unwrap();
+    let quick = args[1] == "quick";
+    let mut rng = SmallRng::seed_from_u64(seed ^ 0x9e0);
+    let geoms: Vec<(usize, usize)> = if quick { vec![(4600, 2), (3000, 1), (1000, 3), (70000, 2), (100_000, 1), (1100, 1)] }
+        else { vec![(4600, 2), (3000, 1), (1000, 3), (70000, 2), (100_000, 1), (1100, 1), (131072, 1), (131072, 2), (5000, 5), (1024, 1), (1025, 1), (9000, 7), (65536, 3), (2300, 1)] };
+    let (mut nframes, mut bad, mut drifted, mut far) = (0u64, 0u64, 0u64, 0u64);
+    let mut mism: Vec<Value> = vec![];
+    let mut drift_ex: Vec<Value> = vec![];
+    let mut windows: Vec<Value> = vec![];
+    for (slice, slices) in geoms {
+        let win = slice * slices;
+        let m = MatchGeneratorDriver::verif_new(slice, slices);
+        let mut comp: FrameCompressor<FragReader, Vec<u8>, MatchGeneratorDriver> = FrameCompressor::new_with_matcher(m, CompressionLevel::Fastest);
+        let mut declared = 0u64;
+        for k in 0..(if quick { 5 } else { 12 }) {
+            // data whose repeats sit just inside the window: random head, then copies of its start at distance ~ win - few bytes
+            let n = win * 2 + rng.gen_range(0..slice.max(2));
+            let mut data: Vec<u8> = gen_input(["random", "text", "skewed", "base64", "mixed"][k % 5], n, &mut rng);
+            let dist = win.saturating_sub(rng.gen_range(1..(slice / 4).max(2))).max(8);
+            let mut p = dist;
+            while p + 40 < n {
+                let l = rng.gen_range(6..40);
+                for j in 0..l {
+                    data[p + j] = data[p + j - dist];
+                }
+                p += l + rng.gen_range(1..slice.max(2));
+            }
+            nframes += 1;
+            comp.set_source(FragReader { data: data.clone(), pos: 0, frag: if k % 2 == 0 { 0 } else { 777 }, calls: 0 });
+            comp.set_drain(Vec::new());
+            verif::take();
+            verif::set_mask(verif::ENC);
+            let r = std::panic::catch_unwind(std::panic::AssertUnwindSafe(|| comp.compress()));
+            let evs = verif::take();
+            verif::set_mask(0);
+            let mut viol: Vec<String> = vec![];
+            match r {
+                Err(p) => {
+                    viol.push(format!("[panic] compress() panicked: {}", panic_msg(p)));
+                }
+                Ok(()) => {
+                    let frame = comp.take_drain().unwrap();
+                    let fo = check_frame_geom(&data, &frame, true, win as u64, &evs, slice);
+                    viol = fo.violations;
+                    declared = fo.json["win"].as_u64().unwrap_or(0);
+                    if fo.json["max_offset"].as_u64().unwrap_or(0) * 8 > win as u64 * 7 {
+                        far += 1;
+                    }
+                    if !fo.drift.is_empty() {
+                        drifted += 1;
+                        if drift_ex.len() < 3 {
+                            drift_ex.push(json!({"slice": slice, "slices": slices, "frame": k, "drift": fo.drift}));
+                        }
+                    }
+                }
+            }
+            if !viol.is_empty() {
+                bad += 1;
+                if mism.len() < 20 {
+                    mism.push(json!({"program": {"slice": slice, "slices": slices, "frame": k, "len": n, "match_distance": dist}, "frame_index": k, "errors": viol}));
+                }
+            }
+        }
+        windows.push(json!([win, declared]));
+    }
+    write_json(&args[2], &json!({"frames": nframes, "mismatches": bad, "first": mism, "drifted_frames": drifted, "drift_examples": drift_ex,
+        "frames_with_offsets_above_7_8_of_the_window": far, "matcher_window_and_declared_window": windows}));
 }
 
 // ---------------------------------------------------------------------------------------------
